@@ -126,8 +126,7 @@ class ErrorHandling:
 
         suggestions = []
         if 1 <= len(expected) < 20:
-            if self.bad_token is None or list(expected) == ['[identifier]']:
-                # if this is the end of query, just show next expected keywords
+            if list(expected) == ['[identifier]']:
                 return list(expected.keys())
 
             # not every suggestion satisfy the end of the query. we have to check if it works
@@ -140,6 +139,16 @@ class ErrorHandling:
                 token.end = 0
                 token.index = 0
                 token.lineno = 0
+
+                if self.bad_token is None:
+                    # end of query: the row of expected tokens also holds tokens that belong to other contexts of the same state
+                    #   (merged lookaheads); keep those the parser really takes when they are appended
+                    self.parser.error_info = None
+                    ast = self.parser.parse(iter(self.tokens + [token]))
+                    info = self.parser.error_info
+                    if ast is not None or info is None or info['bad_token'] is not token:
+                        suggestions.append(value)
+                    continue
 
                 # try to add token
                 tokens2 = self.tokens[:error_index] + [token] + self.tokens[error_index:]
